@@ -226,6 +226,30 @@ def u6_run(carve):
                 pass
             except Exception as e:  # noqa: BLE001
                 bad.append(f"[{be}] tagged union >> group_by(tag): raises {type(e).__name__}: {str(e)[:100]}")
+    # Decimal operands of different precision / scale (Polars): the common type holds every value of both operands exactly
+    from decimal import Decimal as D
+
+    with warnings.catch_warnings():
+        warnings.simplefilter("ignore")
+        fine = [D("1.000000000000001"), D("1.000000000000002"), None]
+        coarse = [D("1.00"), D("2.50"), None]
+        da = pdt.Table(pl.DataFrame({"x": pl.Series(fine, dtype=pl.Decimal(20, 15))}), name="da")
+        db0 = pdt.Table(pl.DataFrame({"x": pl.Series(coarse, dtype=pl.Decimal(10, 2))}), name="db")
+        for label, mkb in (("Decimal(20, 15) | Decimal(10, 2)", lambda: db0), ("Decimal(20, 15) | x.cast(Decimal())  [the default Decimal(31, 11)]", lambda: db0 >> pdt.mutate(x=db0.x.cast(pdt.Decimal())))):
+            for distinct in (False, True):
+                for swap in (False, True):
+                    n += 1
+                    try:
+                        l_, r_ = (mkb(), da) if swap else (da, mkb())
+                        got = (l_ >> pdt.union(r_, distinct=distinct) >> pdt.export(pdt.Polars()))["x"].to_list()
+                        want_rows = (coarse + fine) if swap else (fine + coarse)
+                        want_rows = list(dict.fromkeys(want_rows)) if distinct else want_rows
+                        if collections.Counter(None if v is None else D(v).normalize() for v in got) != collections.Counter(None if v is None else v.normalize() for v in want_rows):
+                            bad.append(f"[polars] {label}{' (swapped)' if swap else ''}, distinct={distinct}: {got}; the operands hold {want_rows}")
+                    except (TypeError, pdt.errors.DataTypeError):
+                        pass  # refused when built: permitted
+                    except Exception as e:  # noqa: BLE001
+                        bad.append(f"[polars] {label}: raises {type(e).__name__}: {str(e)[:100]}")
     # two different databases: the union may be refused, but never be answered from one of them alone
     import os
     import tempfile
